@@ -17,6 +17,12 @@ from .loader import AnalysisError, ClassInfo, Ext, FuncInfo
 from .rules_ast import chain_of
 
 
+def match_slot(p):
+    from .roles import match_slot as _ms
+
+    return _ms(p)
+
+
 # ---------------------------------------------------------------------------
 # K19  StructuredRecord._match
 
@@ -26,7 +32,9 @@ def k19_match(ctx, pid: str):
 
     p = ctx.program
     sr = p.get_class("moclo.core._structured.StructuredRecord")
-    fi = sr.attrs.get("_match")
+    from .roles import match_slot
+
+    fi = sr.attrs.get(match_slot(p))
     if not isinstance(fi, FuncInfo):
         raise AnalysisError("anchor vanished: StructuredRecord._match")
     rx_cls = p.get_class("moclo.regex.DNARegex")
@@ -123,7 +131,10 @@ def k21_match_overrides(ctx, pid: str):
     p = ctx.program
     r = ctx.report
     sr = p.get_class("moclo.core._structured.StructuredRecord")
-    base_match = sr.attrs.get("_match")
+    from .roles import match_slot
+
+    MATCH = match_slot(p)
+    base_match = sr.attrs.get(MATCH)
     if not isinstance(base_match, FuncInfo):
         raise AnalysisError("anchor vanished: StructuredRecord._match")
     rx_cls = p.get_class("moclo.regex.DNARegex")
@@ -134,7 +145,7 @@ def k21_match_overrides(ctx, pid: str):
 
     # which methods take part in the evaluation of _match: _match itself and whatever it reaches through self.<name>
     def reached(ci):
-        names, todo, out = set(), ["_match"], []
+        names, todo, out = set(), [MATCH], []
         while todo:
             nm = todo.pop()
             if nm in names:
@@ -178,7 +189,7 @@ def k21_match_overrides(ctx, pid: str):
                     rep = c
         if rep is None:
             rep = kcs[0].ci
-        o_, fi = p.class_attr_def(rep, "_match")
+        o_, fi = p.class_attr_def(rep, MATCH)
         label = ([q for q in sig if not q.startswith(sr.qualname + ".")] or [fi.qualname + "@" + rep.name])[0]
         funcs.append((rep, fi, label, kcs))
     sm_cls = p.get_class("moclo.regex.SeqMatch")
@@ -321,6 +332,27 @@ def helper_rules(ctx, rule: str):
             return AList(names)
         if dotted == "inspect.getmro" and args and isinstance(args[0], ClassInfo):
             return AList([c for c in p.mro(args[0])])
+        if dotted == "inspect.getattr_static" and len(args) >= 2 and isinstance(args[0], ClassInfo) and isinstance(args[1], str):
+            # the attribute as the class keeps it: a method wrapped in a descriptor class of the code base is an instance
+            # of that class (its descriptor protocol is not run)
+            owner_, raw_ = p.class_attr_def(args[0], args[1])
+            if owner_ is None:
+                return args[2] if len(args) > 2 else None
+            if isinstance(raw_, FuncInfo) and getattr(raw_, "descriptor_kinds", None):
+                return AObj(p.get_class(raw_.descriptor_kinds[0][0]), {"__open__": True}, name="descriptor:" + args[1])
+            if isinstance(raw_, FuncInfo):
+                return AStruct("function", of=raw_.qualname)
+            if isinstance(raw_, ast.Call):
+                try:
+                    c_ = p.resolve_expr(owner_.module, raw_.func)
+                except Exception:
+                    c_ = None
+                if isinstance(c_, ClassInfo):
+                    return AObj(c_, {"__open__": True}, name="instance:" + args[1])  # x = Descriptor(...) in the class body
+            v_ = class_value(args[0], args[1])
+            if isinstance(v_, Term):
+                return AStruct("class-data", of="%s.%s" % (owner_.qualname, args[1]))  # plain data, not an object of the code base
+            return AStruct("NotImplemented") if v_ is NotImplemented else v_
         if dotted == "builtins.vars" and args and isinstance(args[0], ClassInfo):
             # the class's own namespace
             own = {}
@@ -600,7 +632,7 @@ def assembly_layering_rule(ctx, rule: str):
         mine = []
         for node in ast.walk(fi.node):
             why = None
-            if isinstance(node, ast.Attribute) and node.attr in ("_match", getter_name, "structure"):
+            if isinstance(node, ast.Attribute) and node.attr in ("_match", match_slot(p), getter_name, "structure"):
                 why = "reads the private `%s` of a module or vector" % node.attr
             elif isinstance(node, ast.Call) and isinstance(node.func, ast.Attribute) and node.func.attr in ("span", "group") and not (
                     isinstance(node.func.value, ast.Name) and node.func.value.id in ("match", "m")):
@@ -723,9 +755,9 @@ def fragment_cache_rule(ctx, rule: str):
                 if not isinstance(raw, FuncInfo):
                     continue
                 memo = [d for d in raw.decorators if d in ("cached_property", "lru_cache", "cache", "memoize", "memoized")]
-                if nm in names or nm == "_match":
+                if nm in names or nm == match_slot(p):
                     n += 1
-                if nm != "_match" and memo and (nm in names or _returns_record(raw)):
+                if nm != match_slot(p) and memo and (nm in names or _returns_record(raw)):
                     r.ob(rule, raw.qualname, False,
                          "%s is memoised (%s): a record it returns is shared between calls although its callers modify it" % (raw.qualname, ", ".join(memo)), raw.where())
                 if nm in names:
@@ -735,6 +767,37 @@ def fragment_cache_rule(ctx, rule: str):
                     r.ob(rule, raw.qualname + "#stores", not stores,
                          "%s keeps state on the instance (`%s`): its result is no longer rebuilt from the record on every call"
                          % (raw.qualname, re.sub(r"\s+", " ", raw.module.segment(stores[0]) or "")[:70] if stores else ""), raw.where())
+    # ... and by evaluation, wherever a memo may hide (a cached collaborator object, a cached property of such an object): the
+    # fragment accessors called twice on one object must hand out two different records (the callers of the first one
+    # append a source feature to it and rewrite its citations)
+    from .kernels import frag_hooks, match_facts, _spans, pieces_of
+
+    for cname, meths in (("moclo.core.modules.AbstractModule", ("target_sequence",)),
+                         ("moclo.core.vectors.AbstractVector", ("target_sequence", "placeholder_sequence"))):
+        ci_ = p.get_class(cname)
+        for meth in meths:
+            raw = p.class_attr_def(ci_, meth)[1]
+            if not isinstance(raw, FuncInfo):
+                continue
+
+            def make_args(I, ci_=ci_):
+                return (_structured_obj(I, ci_, "x", _spans()),), {}
+
+            def post(I, o, raw=raw, meth=meth):
+                if o.kind != "return" or pieces_of(o.value) is None:
+                    return []  # (what the accessor returns is K7 / K8 / K9's business)
+                try:
+                    again = I.call_function(raw, [I.kernel_args[0]], {})
+                except RaiseSig:
+                    return []
+                shared = again is o.value or (isinstance(again, ARec) and isinstance(o.value, ARec) and (
+                    again.added_features is o.value.added_features or again.attrs is o.value.attrs))
+                return [(rule, raw.qualname + "#called-twice", not shared,
+                         "%s() called twice on one object hands out the same record both times (it is kept somewhere between the calls): "
+                         "the source feature the assembly appends to it, and the citations it rewrites in it, accumulate from one assembly "
+                         "to the next" % meth)]
+
+            emit(ctx, run_paths(ctx, raw, make_args, match_facts(), hooks=frag_hooks(p), post=post), raw.where())
     # the accessors of the two base classes, whichever class of moclo.core implements them (each its own, or one shared
     # implementation driven by class attributes): seven (class, accessor) pairs, all judged above through the MRO
     for cname, meths in (("moclo.core.modules.AbstractModule", names[:1] + names[2:]), ("moclo.core.vectors.AbstractVector", names)):
@@ -970,8 +1033,20 @@ def text_consumers_rule(ctx, rule: str):
                 for g in helpers_of(f_, n):
                     if (text_names(g)[1] or text_names(g)[0]) and g not in todo:
                         todo.append(g)  # returns the text, or derives it from the target itself
+    def by_evaluation(why: str):
+        """the text leaves the functions this rule can follow by reading (it is handed to an object that keeps it, or the
+        whole search is delegated): what happens to it is decided by evaluating the search (kernels2.search_text_effects)"""
+        from .kernels2 import search_text_effects
+
+        eff = search_text_effects(ctx)
+        r.ob(rule, "%s#evaluated" % entry.qualname, not eff,
+             "the searched text is inspected outside the compiled pattern (%s): a shortcut on the raw text has its own letter-case "
+             "and IUPAC semantics [%s]" % ("; ".join(eff), why), entry.where())
+
     if not any(text_names(f)[0] for f in todo):
-        raise AnalysisError("%s: cannot find the text derived from the target" % entry.where())
+        by_evaluation("the text is derived from the target outside the functions followed by reading")
+        r.floor(rule, 1)
+        return
     def normalised_names(fn_node) -> set:
         """locals only ever bound to <something>.upper() / .lower() / .casefold() (possibly doubled / sliced)"""
         def norm(v) -> bool:
@@ -1030,6 +1105,7 @@ def text_consumers_rule(ctx, rule: str):
         return False
 
     n_uses = 0
+    evaluated: List[bool] = []
     seeded: Dict[str, set] = {}
     k_todo = 0
     while k_todo < len(todo):
@@ -1087,6 +1163,22 @@ def text_consumers_rule(ctx, rule: str):
                 elif isinstance(par, ast.Compare) and all(isinstance(x, ast.Constant) for x in [par.left] + par.comparators if x is not n) \
                         and all(isinstance(o, (ast.Eq, ast.NotEq, ast.Is, ast.IsNot)) for o in par.ops):
                     ok = True  # comparison with a constant
+                if not ok and isinstance(par, ast.Call) and n in par.args:
+                    # handed to the constructor of a small class of the code base (a scanner that keeps the text), or to a
+                    # method of such an object: followed by evaluation instead of by reading
+                    tgt_ = None
+                    try:
+                        tgt_ = p.resolve_expr(fi.module, par.func) if isinstance(par.func, (ast.Name, ast.Attribute)) else None
+                    except Exception:
+                        tgt_ = None
+                    via_object = isinstance(par.func, ast.Attribute) and isinstance(par.func.value, ast.Name) and par.func.value.id not in ("self", "cls") \
+                        and any(isinstance(a_, ast.Assign) and len(a_.targets) == 1 and isinstance(a_.targets[0], ast.Name) and a_.targets[0].id == par.func.value.id
+                                and isinstance(a_.value, ast.Call) for a_ in ast.walk(fn))
+                    if isinstance(tgt_, ClassInfo) or (isinstance(tgt_, FuncInfo) and tgt_.owner is not None) or via_object:
+                        if not evaluated:
+                            evaluated.append(True)
+                            by_evaluation("`%s`" % re.sub(r"\s+", " ", fi.module.segment(par) or "")[:60])
+                        ok = True
                 n_uses += 1
                 if not ok and isinstance(n, ast.Name) and n.id in normalised_names(fn):
                     # a literal pre-test on case-normalised text (`anchor in upper`, `upper.find(prefix, i)`): whether skipping on
@@ -1138,6 +1230,34 @@ def order_independence_rule(ctx, rule: str):
             return True
         if isinstance(par, ast.Call) and node in par.args and isinstance(par.func, ast.Attribute) and par.func.attr == "join" and len(par.args) == 1:
             return True  # sep.join(collection)
+        if isinstance(par, ast.Call) and node in par.args and ((isinstance(par.func, ast.Attribute) and par.func.attr == "format")
+                                                               or (isinstance(par.func, ast.Name) and par.func.id in ("repr", "str"))):
+            return True  # the text of the whole collection (a __repr__, a message)
+        if isinstance(par, ast.Call) and node in par.args and depth > 0 and isinstance(par.func, ast.Attribute) and isinstance(par.func.value, ast.Name) \
+                and par.func.value.id not in ("self", "cls"):
+            # handed to a method of a small object of the code base built in the same function: index = OverhangIndex();
+            # index.update(self.modules) -- every use of the parameter in there must consume it as a whole
+            fn_ = par
+            while fn_ is not None and not isinstance(fn_, (ast.FunctionDef, ast.Lambda)):
+                fn_ = parents.get(id(fn_)) if mod is m else None
+            if isinstance(fn_, ast.FunctionDef):
+                for a_ in ast.walk(fn_):
+                    if isinstance(a_, ast.Assign) and len(a_.targets) == 1 and isinstance(a_.targets[0], ast.Name) and a_.targets[0].id == par.func.value.id \
+                            and isinstance(a_.value, ast.Call):
+                        try:
+                            c_ = p.resolve_expr(mod, a_.value.func)
+                        except Exception:
+                            c_ = None
+                        if isinstance(c_, ClassInfo):
+                            g_ = p.class_attr_def(c_, par.func.attr)[1]
+                            if isinstance(g_, FuncInfo) and g_.kind == "method" and not any(isinstance(x, ast.Starred) for x in par.args):
+                                params_ = [x.arg for x in g_.node.args.posonlyargs + g_.node.args.args][1:]
+                                k_ = par.args.index(node)
+                                if k_ < len(params_):
+                                    pm_ = parent_map(g_.node)
+                                    uses_ = [x for x in ast.walk(g_.node) if isinstance(x, ast.Name) and x.id == params_[k_] and isinstance(x.ctx, ast.Load)]
+                                    stores_ = [x for x in ast.walk(g_.node) if isinstance(x, ast.Name) and x.id == params_[k_] and not isinstance(x.ctx, ast.Load)]
+                                    return not stores_ and all(whole(u, pm_.get(id(u)), g_.module, depth - 1) for u in uses_)
         if isinstance(par, ast.Call) and node in par.args and depth > 0:
             # handed to a function of the repository: every use of the parameter in there consumes it as a whole
             g = None
@@ -1406,8 +1526,12 @@ def accessor_totality(ctx, rule: str):
         I.path.effects.append(("match-read",))
         raise RaiseSig(AExc(inv, [Term("record")], {}))
 
-    for q in ("moclo.core._structured.StructuredRecord._match", "moclo.core.modules.AbstractModule._match", "moclo.core.vectors.AbstractVector._match"):
-        hooks[q] = match_raises
+    slot = match_slot(p)
+    for cn in ("moclo.core._structured.StructuredRecord", "moclo.core.modules.AbstractModule", "moclo.core.vectors.AbstractVector"):
+        hooks["%s.%s" % (cn, slot)] = match_raises
+        raw_ = p.class_attr_def(p.get_class(cn), slot)[1]
+        if isinstance(raw_, FuncInfo):
+            hooks[raw_.qualname] = match_raises  # (wherever the class takes the property from: a shared base class)
     table = [("moclo.core.modules.AbstractModule", m) for m in ("overhang_start", "overhang_end", "target_sequence")] + \
             [("moclo.core.vectors.AbstractVector", m) for m in ("overhang_start", "overhang_end", "target_sequence", "placeholder_sequence")]
     for cname, meth in table:
@@ -1672,6 +1796,20 @@ def read_set_rule(ctx, rule: str, records):
             parents[id(ch)] = node
     from .roles import citation_private_helpers
 
+    # the class that carries the rewrite pair when it lives on a small object around one record, and the functions of the
+    # layer that do nothing but build such an object from a record
+    pair_owners = {f.owner for f in pair if f.owner is not None and f.owner.name != "AssemblyManager"}
+    pair_owner_factories = {c.name for c in pair_owners}
+    for f in layer_functions(p):
+        body_ = [st for st in f.node.body if not (isinstance(st, ast.Expr) and isinstance(st.value, ast.Constant))]
+        if len(body_) == 1 and isinstance(body_[0], ast.Return) and isinstance(body_[0].value, ast.Call):
+            try:
+                c_ = p.resolve_expr(f.module, body_[0].value.func)
+            except Exception:
+                c_ = None
+            if c_ in pair_owners:
+                pair_owner_factories.add(f.name)
+
     inside_rewrite = {id(f.node) for f in pair} | {id(f.node) for f in layer_functions(p) if id(f) in citation_private_helpers(p)}
     entry_ = p.get_func("moclo.core._assembly.AssemblyManager.assemble")
     init_ = p.get_func("moclo.core._assembly.AssemblyManager.__init__")
@@ -1695,6 +1833,25 @@ def read_set_rule(ctx, rule: str, records):
                 # the rewrite pair (or a helper only it runs) living on a small object wrapped around one record: that
                 # object's own `record` field *is* the citation rewrite's use of the record
                 continue
+            if root == "self" and path and path[0] == ".record" and encl is not None:
+                # `self.record` of a small class of the layer (a chain that accumulates the product): when every value the
+                # class ever stores there is built on the spot (SeqRecord(...), a concatenation), it is the object's own
+                # record under construction, not a record of an input
+                owner_ = next((ci_ for ci_ in m.classes.values() if any(x is encl for x in ast.walk(ci_.node))), None)
+                if owner_ is not None and owner_.name != "AssemblyManager":
+                    stores_ = []
+                    for x in ast.walk(owner_.node):
+                        tg_ = x.targets if isinstance(x, ast.Assign) else ([x.target] if isinstance(x, (ast.AugAssign, ast.AnnAssign)) else [])
+                        for t_ in tg_:
+                            if isinstance(t_, ast.Attribute) and t_.attr == "record" and isinstance(t_.value, ast.Name) and t_.value.id == "self":
+                                stores_.append(x)
+                    def fresh_(v_):
+                        return (isinstance(v_, ast.Call) and isinstance(v_.func, (ast.Name, ast.Attribute))
+                                and (v_.func.id if isinstance(v_.func, ast.Name) else v_.func.attr) in ("SeqRecord", "CircularRecord")) \
+                            or (isinstance(v_, ast.BinOp) and isinstance(v_.op, ast.Add))
+                    if stores_ and all((isinstance(x, ast.AugAssign) and isinstance(x.op, ast.Add)) or (getattr(x, "value", None) is not None and fresh_(x.value))
+                                       for x in stores_):
+                        continue
             # the records of the elements collected for a call: (elem.record for elem in self.elements), [..], map(...)
             while isinstance(par, (ast.GeneratorExp, ast.ListComp, ast.SetComp)) and par.elt is val:
                 val, par = par, parents.get(id(par))
@@ -1702,7 +1859,14 @@ def read_set_rule(ctx, rule: str, records):
                 if not (isinstance(call, ast.Call) and (v in call.args or any(k.value is v for k in call.keywords)) and isinstance(call.func, (ast.Attribute, ast.Name))):
                     return False
                 nm = call.func.attr if isinstance(call.func, ast.Attribute) else call.func.id
-                return nm in rewrite_names or nm in orchestration
+                if nm in rewrite_names or nm in orchestration:
+                    return True
+                # wrapped in the object that carries the rewrite pair, which is asked to rewrite at once:
+                # self._citation_table(elem.record).dereference() / CitationTable(elem.record).reference()
+                up_ = parents.get(id(call))
+                if isinstance(up_, ast.Attribute) and up_.value is call and up_.attr in rewrite_names and isinstance(parents.get(id(up_)), ast.Call):
+                    return True
+                return nm in pair_owner_factories
 
             def name_uses_ok(name, fn, depth=2):
                 """every use of the local `name` (a record, or the list of the elements' records) hands it to the rewrite"""
